@@ -663,7 +663,7 @@ def run(tier='quick', replay=None):
                 res.obligations += 1
         obl_files = {}     # file -> names
         if base_ok.get('C07lem.v'):
-            for f in ('C07.v', 'C07simp.v'):
+            for f in ('C07.v', 'C07simp.v', 'C07thy.v'):
                 p = os.path.join(core.VERIF, 'coq', 'props', f)
                 if os.path.exists(p):
                     texts[f] = open(p).read()
@@ -758,6 +758,44 @@ def run(tier='quick', replay=None):
                         for t in (['Par', [r_, lf]], ['Ser', [r_, lf]], ['Par', [['Ser', [r_, lf]], gen_leaf(rng, 'R', s0)]]):
                             cases.append({'mode': 'oneport', 'tree': to_impl(t), 's0': fs(s0), 'timeout': 50, 'want': ['alg', 'net']})
                             meta.append({'kind': 'oneport', 'tree': t, 's0': s0, 'tag': 'targeted:' + fn_})
+        # every rule of ParSer._combine at least once (pairs of equal classes, removal of zero elements)
+        def lf_(cls, s0, **kw):
+            return gen_leaf(rng, cls, s0, **kw)
+
+        def zero_leaf(cls, s0):
+            d = gen_leaf(rng, cls, s0)
+            if cls in ('R', 'Z', 'Y', 'G'):
+                d.update(args=['0'], coq=[F(0)], tb=(d['tb'][0], F(0), F(0)))
+            else:
+                d.update(args=['0'], coq=[F(0)], tb=(d['tb'][0], F(0), F(0)))
+            return d
+        for mode, classes in (('Ser', ['R', 'NR', 'G', 'NG', 'L', 'C', 'Vstep']), ('Par', ['R', 'NR', 'G', 'NG', 'L', 'C', 'Istep'])):
+            for cls in classes:
+                s0 = F(rng.choice(SQUARES))
+                a_, b_ = lf_(cls, s0, ic_prob=0.0), lf_(cls, s0, ic_prob=0.0)
+                if cls in ('L', 'C') and rng.random() < 0.6:
+                    # equal initial conditions (the rule for the common quantity), or one-sided
+                    a_ = lf_(cls, s0, ic_prob=1.0)
+                    b_ = lf_(cls, s0, ic_prob=1.0)
+                    if (mode, cls) in (('Ser', 'L'), ('Par', 'C')):
+                        b_['args'][1] = a_['args'][1]
+                        b_['coq'][1] = a_['coq'][1]
+                        b_ = dict(b_)
+                        ic = F(a_['args'][1])
+                        b_['tb'] = ('T', -F(b_['args'][0]) * ic, s0 * F(b_['args'][0])) if cls == 'L' else ('T', ic / s0, 1 / (s0 * F(b_['args'][0])))
+                        b_['ic'] = ic != 0
+                extra = lf_(rng.choice(['R', 'L', 'C', 'Z']), s0)
+                kids = [a_, extra, b_] if rng.random() < 0.5 else [a_, b_, extra]
+                t = [mode, kids]
+                cases.append({'mode': 'oneport', 'tree': to_impl(t), 's0': fs(s0), 'timeout': 30, 'want': ['alg', 'simp']})
+                meta.append({'kind': 'oneport', 'tree': t, 's0': s0, 'tag': 'combine', 'profile': 's'})
+        for mode, zc, other in (('Ser', 'R', 'C'), ('Ser', 'Z', 'L'), ('Par', 'Y', 'R'), ('Par', 'G', 'C')):
+            s0 = F(rng.choice(SQUARES))
+            if zc == 'G':
+                continue    # G(0) divides by zero in the constructor
+            t = [mode, [zero_leaf(zc, s0), lf_(other, s0)]]
+            cases.append({'mode': 'oneport', 'tree': to_impl(t), 's0': fs(s0), 'timeout': 30, 'want': ['alg', 'simp']})
+            meta.append({'kind': 'oneport', 'tree': t, 's0': s0, 'tag': 'combine', 'profile': 's'})
         for i in range(n_one):
             s0 = F(rng.choice(SQUARES))
             prof = ['s', 's', 's', 's', 's', 's', 's', 'dc', 'ac', 'mixed'][i % 10]
@@ -777,6 +815,18 @@ def run(tier='quick', replay=None):
                     types = [('Y' if a.startswith('y') else 'Z') if typed and ctor not in ('transformer', 'gyrator') else 'N' for a in spec[0]]
                     cases.append({'mode': 'ctor', 'kind': kind, 'meth': ctor, 'args': [fs(a) for a in args], 'types': types, 's0': fs(s0), 'timeout': 30})
                     meta.append({'kind': 'ctor', 'K': kind, 'ctor': ctor, 'args': args, 's0': s0, 'tag': 'ctor'})
+        # targeted: network classes whose obligation failed
+        for fn_ in failed_names:
+            m_ = re.match(r'^(?:section_sem|ladder_sem)_([A-Za-z0-9]+)$', fn_)
+            if m_ and sect is not None and (m_.group(1) in sect.sections or m_.group(1) in sect.ladders or m_.group(1) in ('Series', 'Shunt')):
+                cls_ = m_.group(1)
+                for k in range(3):
+                    s0 = F(rng.choice(SQUARES))
+                    n_ = {'Series': 1, 'Shunt': 1, 'LSection': 2, 'TSection': 3, 'PiSection': 3, 'CSection': 3, 'HSection': 5,
+                          'BoxSection': 4, 'SeriesPair': 2}.get(cls_) or (3 + k)
+                    P = [cls_, [small_op(rng, s0) for _ in range(n_)]]
+                    cases.append({'mode': 'twoport', 'tp': tp_to_impl(P), 's0': fs(s0), 'timeout': 40, 'kinds': 'AB', 'netkinds': 'B'})
+                    meta.append({'kind': 'twoport', 'tp': P, 's0': s0, 'tag': 'targeted:' + fn_})
         for i in range(n_two):
             s0 = F(rng.choice(SQUARES))
             P = gen_twoport(rng, s0)
@@ -998,8 +1048,9 @@ def run(tier='quick', replay=None):
         for g in failing:
             lab, ci = labels[g]
             res.disagreements.append({'check': lab, 'case': cases[ci], 'lcapy': wres[ci]})
-        res.rule = ('one-ports: random admissible trees (depth <= 4, <= 7 leaves) over R NR G NG L C (with/without initial conditions) CPE Y Z '
-                    'Xtal FerriteBead and sV V Vstep Vdc Vac v / sI I Istep Idc Iac i, evaluated at a rational s0, plus a fixed corpus; '
+        res.rule = ('one-ports: random admissible trees (depth <= 4, <= 6 leaves) over R NR G NG L C (with/without initial conditions) CPE Y Z '
+                    'Xtal FerriteBead and sV V Vstep v / sI I Istep i (model + oracle, evaluated at a rational s0), Vdc Idc Vac Iac and mixtures '
+                    '(oracle only: algebra vs netlist through the Laplace transform of the result), one tree per _combine rule, the DESIGN F9 corpus; '
                     'two-ports: every section class, chains, Par2, Ser2/Hybrid2/InverseHybrid2 (second argument a shunt so that the port '
                     'condition holds), every section constructor of AMatrix/BMatrix/ZMatrix; non-trivial = the real code returned values; '
                     'distinct = distinct tree shape + values')
@@ -1025,7 +1076,29 @@ def run(tier='quick', replay=None):
             v.update({'key': k, 'what': 'network algebra and netlist analysis disagree: ' + k, 'found_input': True,
                       'how': './check C07 --replay <this file>'})
             violations.append(v)
+        # generic keys: at most two reported inputs per family (the first ones found)
+        fam_count = {}
+        for k in list(by_key):
+            fam = k.split(':')[0]
+            if k.startswith('oneport.') or k.startswith('simplify.') or k.startswith('twoport.'):
+                fam_count[fam] = fam_count.get(fam, 0) + 1
+                if fam_count[fam] > 2:
+                    violations[:] = [v for v in violations if v.get('key') != k]
         explained = set()
+        fams = set(k.split(':')[0] for k in by_key)
+        for q_ in ('Z', 'Y', 'Voc', 'Isc'):
+            if 'oneport.' + q_ in fams or 'simplify.' + q_ in fams:
+                explained.update({'Z': ['nf_Ser_impedance', 'nf_Par_impedance'], 'Y': ['nf_Ser_admittance', 'nf_Par_admittance'],
+                                  'Voc': ['nf_Ser_Voc'], 'Isc': ['nf_Par_Isc']}[q_])
+                explained.add('correspondence:alg.' + q_)
+        if any(f.startswith('simplify.') for f in fams):
+            explained.update(['correspondence:simplify', 'combine_sound_ser', 'combine_sound_par', 'simplify_preserves'])
+        for f in fams:
+            if f.startswith('twoport.'):
+                cls_ = f.split('.')[1]
+                explained.update(['correspondence:twoport.' + cls_, 'section_sem_' + cls_, 'ladder_sem_' + cls_])
+                if cls_ in ('Chain',):
+                    explained.update(['chain_sem', 'chain_B_sem', 'chain_assoc'])
         for k in by_key:
             if k.startswith('ParSer.'):
                 explained.update(['leaf_guard_sound_L', 'leaf_guard_sound_C', 'leaf_guard_sound_all', 'C07_oneport_code', 'C07_code_eq_spec'])
@@ -1041,7 +1114,7 @@ def run(tier='quick', replay=None):
         seen = set()
         for d in res.disagreements:
             k = 'correspondence:' + d['check']
-            if k in seen:
+            if k in seen or k in explained:
                 continue
             seen.add(k)
             violations.append({'key': k, 'what': 'hand model / translation and the real code differ on ' + d['check'],
